@@ -6,7 +6,9 @@ from . import gencrate as GC
 from . import datacases as D
 
 HEADER = ("From Coq Require Import String.\nFrom SFX Require Import Extracted.\nFrom SF Require Import Bytes Schema Ty HarnessTy HarnessC5 Abi HarnessAbi.\n"
-          "Import ListNotations.\nOpen Scope string_scope.\nOpen Scope N_scope.\n")
+          "Import ListNotations.\nOpen Scope string_scope.\nOpen Scope N_scope.\n"
+          # Abi.vres also has constructors named VOk / VErr: in case files these names always mean the values of Result types
+          "Notation VOk := Ty.VOk (only parsing).\nNotation VErr := Ty.VErr (only parsing).\n")
 
 
 def cb(b):
